@@ -498,7 +498,7 @@ class Check(core.PropertyCheck):
                           "refuse_not_valid", "refuse_name_mismatch", "refuse_garbage", "refuse_closes", "path_lazy",
                           "path_eager", "trust_ca_file", "trust_ca_dir", "trust_default", "trust_file_other",
                           "id_dns", "id_idn", "id_ip4", "id_ip6", "src_server_sni", "src_client_sni", "src_address",
-                          "src_sni_empty", "ok_wild_ok", "ok_inter", "ok_san_case")
+                          "src_sni_empty", "ok_wild_ok", "ok_inter", "ok_san_case", "path_full")
     REQUIRED_ACTIONS = ("StartServer", "Flight", "Finish")
     ASSUMPTIONS = (
         "ground truth (trusted / valid / named) is by construction of the certificates the harness mints with "
